@@ -101,7 +101,7 @@ fn f32_sweep<F: Fn(f64) -> bool + Sync>(run: &Run, lo: f32, hi: f32, stride: u32
 }
 
 pub fn run(run: &Run) {
-    run.rule("gamma: every f32-representable argument in (-170,171.6) outside |x-k|<2^-10 for the poles k ≤ -1 and down to the smallest subnormal f32 (and f64 decades to 1e-307) next to the pole at 0 (thorough; every 16th with a seed-chosen offset in quick) plus integers, half-integers and ±8 f64-ulps around them; beta on a 12x12 parameter lattice; digamma on all integers ≤ 1e4 (harmonic numbers), a geometric lattice to 1e6 and an f32 sweep of [1e-3,64]; erf on every f32 in [-6,6] (strided quick) and a lattice to ±40; identities on adjacent points; every ordered pair of calls over 24-element argument sets (purity: no dependence on the previous call); every argument is a distinct non-trivial case");
+    run.rule("gamma: every f32-representable argument in (-170,171.6) outside |x-k|<2^-10 for the poles k ≤ -1 and down to the smallest subnormal f32 (and f64 decades to 1e-307) next to the pole at 0 (thorough; every 16th with a seed-chosen offset in quick) plus integers, half-integers and ±8 f64-ulps around them; beta on a 12x12 parameter lattice plus a finer one and every integer pair in 1..=80; digamma on all integers ≤ 1e4 (harmonic numbers), a geometric lattice to 1e6 and an f32 sweep of [1e-3,64]; erf on every f32 in [-6,6] (strided quick) and a lattice to ±40; identities on adjacent points; every ordered pair of calls over 24-element argument sets (purity: no dependence on the previous call); every argument is a distinct non-trivial case");
     let stride: u32 = if run.thorough() { 1 } else { 16 };
     let offset: u32 = (run.seed % stride as u64) as u32;
     run.bound("f32 stride", format!("{} (offset {})", stride, offset));
@@ -201,7 +201,13 @@ pub fn run(run: &Run) {
             run.ok();
             run.nontrivial(1);
             let want = (DD::new(c_tgamma(a)) * DD::new(c_tgamma(b)) / DD::new(c_tgamma(a + b))).f();
-            let got = beta(a, b);
+            let got = match guard(|| beta(a, b)) {
+                Ok(v) => v,
+                Err(p) => {
+                    run.violate("beta/panic", || format!("beta({}, {}) panicked: {}", a, b, p));
+                    continue;
+                }
+            };
             let rel = ((got - want) / want).abs();
             if !(rel <= 1e-12) {
                 let cls = if a + b >= 143.0 { "a+b>=143" } else { "a+b<143" };
@@ -210,9 +216,28 @@ pub fn run(run: &Run) {
             } else {
                 run.outcome(&("beta-ok", a + b >= 143.0));
             }
-            let sym = beta(b, a);
+            let sym = guard(|| beta(b, a)).unwrap_or(f64::NAN);
             if !(((got - sym) / got).abs() <= 1e-12) && got.is_finite() {
                 run.violate("beta/symmetry", || format!("beta({},{}) = {:e} but beta({},{}) = {:e}", a, b, got, b, a, sym));
+            }
+        }
+    });
+    // every integer pair in 1..=80 (closed form 1/((a+b-1) C(a+b-2, a-1)); an integer fast path would be
+    // entered here and nowhere on the real-valued lattice)
+    (1..=80u32).into_par_iter().for_each(|ai| {
+        for bi in 1..=80u32 {
+            let (a, b) = (ai as f64, bi as f64);
+            run.case();
+            run.tr();
+            run.ok();
+            let want = (DD::new(c_tgamma(a)) * DD::new(c_tgamma(b)) / DD::new(c_tgamma(a + b))).f();
+            match guard(|| beta(a, b)) {
+                Ok(got) => {
+                    if !(((got - want) / want).abs() <= 1e-12) {
+                        run.violate("beta/integer-pairs", || format!("beta({}, {}) = {:e}, want {:e}", a, b, got, want));
+                    }
+                }
+                Err(p) => run.violate("beta/panic", || format!("beta({}, {}) panicked: {}", a, b, p)),
             }
         }
     });
